@@ -360,13 +360,25 @@ def g_int(rnd):
     return rnd.randint(-INT_MAX - 1, INT_MAX)
 
 
+LONG_SIZES = [9, 10, 11, 12, 13, 14, 20, 21, 27, 28, 43, 44, 59, 60, 61]
+
+
+def g_head(rnd):
+    """heads of 0..3 atoms; 6 %: a LONG head whose size sits at a block boundary of the rule builder's storage (64 bytes = 11 atoms in front of
+    a sum bound, then the growth steps) - seeded C04-r5 / C10-r8: a pointer kept across the reallocation that the bound of a sum body triggers"""
+    if rnd.random() < 0.06:
+        n = rnd.choice(LONG_SIZES)
+        return [i + 1 for i in range(n)] if rnd.random() < 0.6 else [g_atom(rnd) for _ in range(n)]
+    return [g_atom(rnd) for _ in range(g_len(rnd, 3))]
+
+
 def g_dir(rnd):
     k = rnd.choice([4, 4, 4, 5, 5, 6, 6, 7, 8, 8, 9, 10, 11, 12])
     if k == 4:
-        return (4, rnd.choice([0, 0, 1]), [g_atom(rnd) for _ in range(g_len(rnd, 3))], [g_lit(rnd) for _ in range(g_len(rnd, 4))])
+        return (4, rnd.choice([0, 0, 1]), g_head(rnd), [g_lit(rnd) for _ in range(g_len(rnd, 4))])
     if k == 5:
         body = [(g_lit(rnd), rnd.choice([0, 1, 1, 2, 3, INT_MAX, rnd.randint(0, INT_MAX)])) for _ in range(g_len(rnd, 4))]
-        return (5, rnd.choice([0, 0, 1]), [g_atom(rnd) for _ in range(g_len(rnd, 3))], g_int(rnd), body)
+        return (5, rnd.choice([0, 0, 1]), g_head(rnd), g_int(rnd), body)
     if k == 6:
         return (6, g_int(rnd), [(g_lit(rnd), g_int(rnd)) for _ in range(g_len(rnd, 4))])
     if k == 7:
